@@ -354,7 +354,7 @@ class Translator:
             return self.exec_body(st.body, env, mod, depth)
         raise Unmodelled("statement kind %s not modelled: %s" % (type(st).__name__, ast.unparse(st)[:80]))
 
-    def _with_contextmanager(self, st, env, mod, depth):
+    def _with_contextmanager(self, st, env, mod, depth, body_runner=None):
         """`with self.cm(args):` where cm is a repo function decorated with contextmanager and shaped
         `<setup>; try: yield [v] finally: <cleanup>` (or `<setup>; yield [v]; <cleanup>`): setup, body, cleanup"""
         call = st.items[0].context_expr
@@ -401,12 +401,17 @@ class Translator:
             if st.items[0].optional_vars is not None:
                 v_ = self.eval(yst.value.value, env2, fn.mod, depth + 1) if yst.value.value is not None else None
                 self.assign(st.items[0].optional_vars, v_, env, mod, depth)
-            state["ret"] = self.exec_body(st.body, env, mod, depth)
+            state["ret"] = body_runner() if body_runner is not None else self.exec_body(st.body, env, mod, depth)
 
         def run(stmts):
             for x in stmts:
                 if is_yield(x):
                     body_at(x)
+                elif isinstance(x, ast.With) and len(x.items) == 1 and any(is_yield(y) for y in x.body):
+                    # the manager delegates part of its work to another one: `with inner(..): <setup>; yield; <cleanup>`
+                    r_in = self._with_contextmanager(x, env2, fn.mod, depth + 1, body_runner=lambda x_=x: run(x_.body))
+                    if r_in is NotImplemented:
+                        run(x.body)   # not a context manager of the package (a tape, a name scope): its body runs
                 elif isinstance(x, ast.Try) and any(is_yield(y) for y in x.body) and not x.handlers:
                     try:
                         run(x.body)
@@ -710,7 +715,7 @@ class Translator:
             return Opaque("itertools." + name)
         if name in ("int", "float", "len", "range", "abs", "sum", "list", "tuple", "zip", "enumerate", "min", "max",
                     "isinstance", "hasattr", "callable", "complex", "round", "pow", "print", "dict", "str", "sorted", "reversed", "bool", "type",
-                    "set", "frozenset", "any", "all", "map", "filter", "getattr", "iter", "next", "id", "vars"):
+                    "set", "frozenset", "any", "all", "map", "filter", "getattr", "iter", "next", "id", "vars", "divmod"):
             return Opaque("builtin." + name)
         return Opaque(name)
 
@@ -743,6 +748,8 @@ class Translator:
             return PyFunc(lambda *a, _s0=obj, **k: _s0.format(*[str(x) for x in a], **{kk: str(vv) for kk, vv in k.items()}))
         if self.hooks.get("attribute") and not is_sym(obj) and not isinstance(obj, (dict, SelfObj, Opaque, Mod, np.ndarray, DType, list, tuple, str)):
             return self.hooks["attribute"](self, obj, n.attr, n)  # checker-defined abstract values
+        if n.attr in ("size", "ndim") and isinstance(obj, np.ndarray):
+            return sp.Integer(getattr(obj, n.attr))
         if n.attr in ("shape",):
             if isinstance(obj, TensorList):
                 return (sp.Integer(len(obj)),)
@@ -929,6 +936,9 @@ class Translator:
             return obj.reshape(tuple(_pyint(x) for x in shp_))
         if isinstance(obj, np.ndarray) and name == "astype":
             return obj
+        if isinstance(obj, np.ndarray) and name == "transpose":
+            axes_ = args[0] if len(args) == 1 and isinstance(args[0], (list, tuple)) else (args or None)
+            return obj.transpose(tuple(_pyint(x) for x in axes_)) if axes_ else obj.transpose()
         if isinstance(obj, np.ndarray) and name == "tolist" and not args:
             return obj.tolist()
         if isinstance(obj, (list, str, tuple)) and name == "index":
@@ -1273,6 +1283,8 @@ class Translator:
             return None
         if name == "bool":
             return self.truth(a0, n)
+        if name == "divmod" and len(args) == 2:
+            return (self.binop(ast.FloorDiv(), args[0], args[1]), self.binop(ast.Mod(), args[0], args[1]))
         if name == "dict.fromkeys" and 1 <= len(args) <= 2:
             return {_pykey(k_): (args[1] if len(args) > 1 else None) for k_ in list(a0)}
         raise Unmodelled("builtin %s" % name)
